@@ -40,7 +40,10 @@ impl KeGroup for Curve25519 {
             .try_into()
             .ok()
             .map(MontgomeryPoint)
-            .filter(|pk| pk != &MontgomeryPoint::identity())
+            // Reject the identity and every other small-order point: these are exactly the points
+            // that the cofactor maps to the identity, and they would force an all-zero shared
+            // secret.
+            .filter(|pk| pk * Scalar::from(8u8) != MontgomeryPoint::identity())
             .ok_or(InternalError::PointError)
     }
 
